@@ -177,8 +177,8 @@ func (x *extractor) ioItem(call *ast.CallExpr) (Item, bool, bool) {
 		}
 		arg := call.Args[2]
 		t := f.TypeOf(arg)
-		if p, ok := t.(*types.Pointer); ok && !x.writer {
-			t = p.Elem()
+		if p, ok := t.(*types.Pointer); ok {
+			t = p.Elem() // binary.Read needs a pointer; binary.Write accepts one and encodes the pointee
 		}
 		if w := basicWidth(t); w > 0 {
 			return Item{Kind: itScalar, Width: w, Field: x.fieldOf(arg), Ref: exprKey(arg), Pos: call.Pos()}, true, true
@@ -249,8 +249,18 @@ func (x *extractor) exprItems(n ast.Node) []Item {
 
 func (x *extractor) block(stmts []ast.Stmt) []Item {
 	var out []Item
-	for _, s := range stmts {
-		out = append(out, x.stmt(s)...)
+	for i, s := range stmts {
+		items := x.stmt(s)
+		// `if C { continue }` guards everything that follows in this iteration: the rest of the block is
+		// the body of a conditional (the same grammar as `if !C { rest }`)
+		if n := len(items); n > 0 && items[n-1].Kind == itIf && items[n-1].Ref == "skip-rest" {
+			rest := x.block(stmts[i+1:])
+			out = append(out, items[:n-1]...)
+			guard := items[n-1]
+			guard.Body = rest
+			return append(out, guard)
+		}
+		out = append(out, items...)
 	}
 	return out
 }
